@@ -20,6 +20,9 @@ SYSCALLS = "rename,renameat,renameat2,unlink,unlinkat,write,pwrite64,ftruncate,f
 # strace counts `when=K` per syscall number (the K-th rename, the K-th write, …), so kill points are (syscall, K) pairs
 POINTS_QUICK = [("rename", k) for k in range(1, 5)] + [("unlink", k) for k in range(1, 7)] + [("write", k) for k in range(1, 27)] + [("pwrite64", k) for k in range(1, 4)] + [("ftruncate", 1), ("fdatasync", 1), ("fsync", 1)]
 POINTS_THOROUGH = [("rename", k) for k in range(1, 8)] + [("unlink", k) for k in range(1, 12)] + [("write", k) for k in range(1, 50)] + [("pwrite64", k) for k in range(1, 8)] + [("ftruncate", k) for k in (1, 2)] + [("fdatasync", 1), ("fsync", 1), ("renameat", 1), ("unlinkat", 1)]
+# the first command of a fresh project: its start-up is writes 1..27 (rollback journal, page 1, -shm, WAL header, the frames of the
+# table-creating transaction), unlink 1 (journal), ftruncate 1 (-shm); a few points beyond it reach the start of the first build
+POINTS_FRESH = [("write", k) for k in range(1, 33)] + [("unlink", k) for k in (1, 2)] + [("ftruncate", 1), ("rename", 1), ("pwrite64", 1), ("fsync", 1), ("fdatasync", 1)]
 
 
 def with_crashes(rng, case):
@@ -251,6 +254,149 @@ def dir_tmp_scenario():
     return problems
 
 
+STEP_SCRIPT = """at() {
+  echo $$ >"at.$1"
+  n=0
+  while [ -e "hold.$1" ] && [ $n -lt 600 ]; do sleep 0.05; n=$((n+1)); done
+}
+at 0
+redo-ifchange a
+at 1
+redo-ifchange b
+at 2
+{ echo t; cat a b; } >"$3"
+at 3
+"""
+STEP_NAMES = ["before its first redo-ifchange", "between its two redo-ifchange commands", "after its last redo-ifchange, before it writes $3", "after it has written $3"]
+
+
+def script_kill_scenario(step, edit, nested, stats):
+    """Exactly ONE process is SIGKILLed: the job child that runs t's script (the `sh` redo forked), at one of four
+    instants of the script; the redo process that started it survives, sees the signal status and records what it
+    records.  a, b -> t (-> top when nested).  Built; the sources named in `edit` are edited; the rebuild is started
+    with the script told to wait at instant `step`, and the shell whose pid the script wrote down is killed there.
+    Then the property's monitor: plain `redo-ifchange` of the same target exits 0 and the target is what a
+    from-scratch build gives; a later edit is reacted to; no temporary output is left.  Returns (problems, info)."""
+    import signal, subprocess, time as _t
+    goal = "top" if nested else "t"
+    pr = Project()
+    try:
+        pr.write("t.do", STEP_SCRIPT)
+        pr.write("top.do", "redo-ifchange t\necho top; cat t\n")
+        val = dict(a="a1\n", b="b1\n")
+        for k, v in val.items():
+            pr.write(k, v)
+
+        def want():
+            w = "t\n" + val["a"] + val["b"]
+            return (("top\n" + w) if nested else w).encode()
+        info = dict(step=step, edit=edit, nested=nested)
+        rc, out, err = pr.run(["redo-ifchange", goal], timeout=90)
+        if rc != 0 or pr.read(goal) != want():
+            return ["setup build failed (exit %d)" % rc], dict(info, stderr=err[-600:])
+        for k in edit:
+            val[k] = k + "2\n"
+            pr.write(k, val[k])
+        for s in range(4):
+            pr.rm("at.%d" % s)
+        pr.write("hold.%d" % step, "")
+        p = subprocess.Popen(["redo-ifchange", goal], cwd=pr.root, env=clean_env(), stdout=subprocess.DEVNULL, stderr=subprocess.PIPE,
+                             stdin=subprocess.DEVNULL, start_new_session=True)
+        pid, t0 = None, _t.time()
+        while _t.time() - t0 < 60 and p.poll() is None:
+            s = pr.read("at.%d" % step)
+            if s and s.endswith(b"\n"):
+                pid = int(s)
+                break
+            _t.sleep(0.02)
+        if pid is not None:
+            try:
+                os.kill(pid, signal.SIGKILL)
+            except ProcessLookupError:
+                pid = None
+        pr.rm("hold.%d" % step)
+        try:
+            _, err1 = p.communicate(timeout=90)
+        except subprocess.TimeoutExpired:
+            err1 = b"(the interrupted run did not end within 90 s)"
+        try:
+            os.killpg(p.pid, signal.SIGKILL)
+        except (ProcessLookupError, PermissionError):
+            pass
+        if p.poll() is None:
+            p.wait()
+        info["interrupted_run_rc"] = p.returncode
+        if pid is None:
+            stats["not_reached"] += 1
+            return [], dict(info, killed=False)
+        stats["killed"] += 1
+        problems = []
+        rc2, out2, err2 = pr.run(["redo-ifchange", goal], timeout=60)
+        if rc2 == -999:
+            problems.append("recovery run did not terminate within 60 s")
+        elif rc2 != 0:
+            problems.append("recovery run exited %d" % rc2)
+        elif pr.read(goal) != want():
+            problems.append("recovery run exited 0 but %s holds %r, a from-scratch build gives %r" % (goal, pr.read(goal), want()))
+        got2 = pr.read(goal)
+        for k in ("a", "b"):
+            val[k] = k + "3\n"
+            pr.write(k, val[k])
+            rc3, out3, err3 = pr.run(["redo-ifchange", goal], timeout=60)
+            if rc3 != 0 or pr.read(goal) != want():
+                problems.append("after a later edit of %s, redo-ifchange %s (exit %d) leaves %r, expected %r" % (k, goal, rc3, pr.read(goal), want()))
+            err2 += err3
+        left = [f for f in os.listdir(pr.root) if f.endswith(".redo.tmp")]
+        if left:
+            problems.append("temporary files left after recovery: %r" % left)
+        return problems, dict(info, killed=True, recovery_rc=rc2, after_recovery=repr(got2), override_warnings=re.findall(r"(\S+) - you modified it; skipping", err2),
+                              stderr_interrupted=err1.decode("utf-8", "replace")[-400:], stderr=err2[-600:])
+    finally:
+        pr.destroy()
+
+
+def first_command_scenario(point, stats):
+    """The very FIRST command of a project (no .redo yet) is killed before one of its state-changing calls — the
+    start-up that creates .redo, the database file, switches it to WAL and commits the tables, then the build itself;
+    then the same command is simply run again.  Returns (problems, info)."""
+    call, K = point
+    pr = Project()
+    try:
+        pr.write("src", "v1\n")
+        pr.write("mid.do", "redo-ifchange src\n{ echo mid; cat src; } >$3\n")
+        pr.write("side.do", "redo-ifchange src\necho side; cat src\n")
+        pr.write("top.do", "redo-ifchange mid side\ncat mid side\n")
+        rc, out, err = pr.run(["strace", "-f", "-o", "/dev/null", "-e", "trace=" + call, "-e", "inject=%s:signal=KILL:when=%d" % (call, K),
+                               "redo-ifchange", "top"], timeout=60)
+        killed = rc != 0
+        stats["killed" if killed else "not_reached"] += 1
+        try:
+            dbsize = os.path.getsize(pr.path(".redo/db.sqlite3"))
+        except OSError:
+            dbsize = None
+        problems = []
+        rc2, out2, err2 = pr.run(["redo-ifchange", "top"], timeout=60)
+        want = b"mid\nv1\nside\nv1\n"
+        if rc2 == -999:
+            problems.append("recovery run did not terminate within 60 s")
+        elif rc2 != 0:
+            problems.append("recovery run exited %d (%s)" % (rc2, err2.strip().splitlines()[-1][:160] if err2.strip() else ""))
+        elif pr.read("top") != want:
+            problems.append("after recovery top holds %r, a from-scratch build gives %r" % (pr.read("top"), want))
+        pr.write("src", "v2\n")
+        rc3, out3, err3 = pr.run(["redo-ifchange", "top"], timeout=60)
+        want3 = b"mid\nv2\nside\nv2\n"
+        if rc3 != 0 or pr.read("top") != want3:
+            problems.append("after a later edit and rebuild (exit %d) top holds %r, expected %r" % (rc3, pr.read("top"), want3))
+        rc4, tg, err4 = pr.run(["redo-targets"], timeout=60)
+        if rc4 != 0 or not {"top", "mid", "side"} <= set(tg.split()):
+            problems.append("redo-targets afterwards: exit %d, %r" % (rc4, sorted(tg.split())))
+        return problems, dict(K="%s#%d" % (call, K), killed=killed, db_size_after_kill=dbsize, recovery_rc=rc2,
+                              override_warnings=re.findall(r"(\S+) - you modified it; skipping", err2 + err3), stderr=(err2 + err3)[-800:])
+    finally:
+        pr.destroy()
+
+
 def kill_window_matcher(listed_under):
     """Matcher for the two recorded findings of the "two-stage commit" family, as listed in known_findings.json under
     property `listed_under` (C10, and C01 — whose histories contain killed builds too)."""
@@ -337,6 +483,44 @@ def run(ctx):
             known_hit.append("kill between rename(tmp, target) and the recording commit (kill points %s): the recovery run says 'you modified it; skipping' for a file redo itself installed, exits 0, and the target stays stale after later edits (builder.rs record_new_state, the FIXME)" % ",".join(map(str, window)))
         cov["distribution"]["inject"] = dict(points=kmax, **stats, rename_window_hits=window)
         cov["evaluations"] += kmax
+    # (2a) the same enumeration over the start-up of the very first command of a project (no .redo yet)
+    if not viol:
+        stats = dict(killed=0, not_reached=0)
+        with ThreadPoolExecutor(max_workers=10) as ex:
+            res = list(ex.map(lambda pt: first_command_scenario(pt, stats), POINTS_FRESH))
+        kf = [k for k in known_findings("C10") if k.get("id") == "rename-before-commit" and k.get("status") == "known"]
+        window = []
+        for problems, info in res:
+            if not problems:
+                continue
+            if kf and info.get("override_warnings") and all(("top holds" in p) for p in problems):
+                window.append(info["K"])
+                continue
+            p = write_replay("C10", "first-command-%s" % info["K"], dict(kind="impl-monitor", info=info, problems=problems,
+                                                                          scenario="fresh directory (no .redo): src -> mid, side -> top; the first `redo-ifchange top` runs under strace with SIGKILL injected before the given call (%s) of each process; then redo-ifchange top; edit src; redo-ifchange top; redo-targets" % info["K"]))
+            viol.append(Violation("C10", p, "first command of a fresh project killed before %s (database file then: %s bytes): %s" % (info["K"], info.get("db_size_after_kill"), "; ".join(problems))))
+            break
+        if window and not any("rename(tmp, target)" in k for k in known_hit):
+            known_hit.append("kill between rename(tmp, target) and the recording commit, first command of a project (kill points %s)" % ",".join(map(str, window)))
+        cov["distribution"]["first_command_inject"] = dict(points=len(POINTS_FRESH), **stats, rename_window_hits=window)
+        cov["evaluations"] += len(POINTS_FRESH)
+    # (2a') exactly one process killed: the shell that runs a target's script, at four instants of the script
+    if not viol:
+        stats = dict(killed=0, not_reached=0)
+        cases = [(step, edit, nested) for step in range(4) for edit in ("a", "b", "ab") for nested in (False, True)]
+        with ThreadPoolExecutor(max_workers=8) as ex:
+            res = list(ex.map(lambda c: script_kill_scenario(c[0], c[1], c[2], stats), cases))
+        for problems, info in res:
+            if not problems:
+                continue
+            p = write_replay("C10", "script-kill-%d-%s-%s" % (info["step"], info["edit"], "nested" if info["nested"] else "direct"),
+                             dict(kind="impl-monitor", info=info, problems=problems, script=STEP_SCRIPT,
+                                  scenario="a, b -> t%s, t.do as given; built; %s edited; redo-ifchange %s, and kill -9 of ONLY the shell running t.do when it is at instant %d (%s); then redo-ifchange again; edit a; redo-ifchange; edit b; redo-ifchange"
+                                  % (" -> top" if info["nested"] else "", " and ".join(info["edit"]), "top" if info["nested"] else "t", info["step"], STEP_NAMES[info["step"]])))
+            viol.append(Violation("C10", p, "kill -9 of only the shell running t.do (%s; %s edited; %s): %s" % (STEP_NAMES[info["step"]], " and ".join(info["edit"]), "t built below top" if info["nested"] else "t asked for directly", "; ".join(problems[:3]))))
+            break
+        cov["distribution"]["script_kill"] = dict(cases=len(cases), **stats)
+        cov["evaluations"] += len(cases)
     # (2b) a `$3` left behind by a killed build
     if not viol:
         probs = stale_tmp_scenario()
